@@ -514,16 +514,39 @@ def run_poison(ctx, k):
 
 
 # ---------------------------------------------------------------- running the real thing
-def build_real(case, src):
-    """exec the generated source. returns (ok, namespace_or_error_kind, message)"""
+def build_real(case, src, log=None):
+    """exec the generated source. returns (ok, namespace_or_error_kind, message).
+    While it runs, conditional._check_and_add_pred_set is wrapped (in this process only) so
+    that the pred_set computed by _current_select for every |= is observed."""
     ns = {}
+    cond = pyrtl.conditional
+    orig = cond._check_and_add_pred_set
+
+    def spy(lhs, pred_set):
+        if log is not None:
+            log.append((getattr(lhs, 'name', '?'), sorted((p.name, bool(b)) for p, b in pred_set)))
+        return orig(lhs, pred_set)
+    cond._check_and_add_pred_set = spy
     try:
         exec(compile(src, '<C07 program>', 'exec'), ns)
     except pyrtl.PyrtlError as e:
         return False, 'PyrtlError', str(e)
     except Exception as e:  # noqa
         return False, type(e).__name__, traceback.format_exc()[-800:]
+    finally:
+        cond._check_and_add_pred_set = orig
     return True, ns, ''
+
+
+def expected_log_len(forest):
+    """how many |= reach _check_and_add_pred_set before the elaboration stops"""
+    ls = py_lits(forest)
+    for i, (l, c, _) in enumerate(ls):
+        if len(c) == 0:
+            return i            # _current_select raises before the pred_set is looked at
+        if any(l == l2 and not py_excl(c, c2) for l2, c2, _ in ls[:i]):
+            return i + 1        # the conflicting pred_set is seen, then the check raises
+    return len(ls)
 
 
 def used_preds(case):
@@ -722,17 +745,158 @@ def extract_exprs(case, ns):
 
 
 # ---------------------------------------------------------------- one case
-def process_case(ctx, case, rng, jobs):
+def impl_vs_spec(case, seed):
+    """Stand-alone search step: build the real program, simulate, compare with the Python tree
+    interpreter.  Returns None (agrees) or a dict describing the first disagreement."""
+    import random
+    src = emit_source(case)
+    try:
+        ok, ns, msg = build_real(case, src)
+        accept = [py_accepts(b['prog']) for b in case['blocks']]
+        spec_ok = all(a for a, _ in accept)
+        why = next((w for a, w in accept if not a), 'ok')
+        if not ok and ns != 'PyrtlError':
+            return {'kind': 'foreign', 'source': src, 'error': msg}
+        if ok != spec_ok:
+            return {'kind': 'accept', 'source': src, 'impl': 'accepted' if ok else 'rejected: ' + msg, 'spec': why}
+        if not ok or not case['targets']:
+            return None
+        steps, init_regs, init_mems = make_stimulus(random.Random(seed), case, rounds=2)
+        try:
+            rows = simulate(case, ns, steps, init_regs, init_mems)
+        except Exception:  # noqa
+            return None
+        srows, bad = spec_run(case, steps, init_regs, init_mems)
+        if srows is None:
+            return {'kind': 'two-active', 'source': src, 'target': wname(bad[0]), 'predicates': bad[1]}
+        leak = False
+        if len(case['blocks']) > 1 and not same_rows(case, rows, srows):
+            lrows, _ = spec_run(case, steps, init_regs, init_mems, leaky=True)
+            leak = lrows is not None and same_rows(case, rows, lrows)
+        for k, (ir, sr) in enumerate(zip(rows, srows)):
+            for l in case['targets']:
+                a, b = ir[l], sr[l]
+                if l[0] == 'm':
+                    a, b = norm_mem(a), norm_mem(b)
+                if a != b:
+                    return {'kind': 'value', 'leak': leak, 'source': src, 'cycle': k, 'target': wname(l),
+                            'expected': sr[l], 'got': ir[l], 'predicates': steps[k][0], 'leaves': steps[k][1],
+                            'inputs': [{'rho': x[0], 'x': x[1]} for x in steps[:k + 1]],
+                            'init_regs': {wname(x): v for x, v in init_regs.items()},
+                            'init_mems': {wname(x): v for x, v in init_mems.items()}}
+        return None
+    finally:
+        pyrtl.reset_working_block()
+
+
+def remove_at(forest, path):
+    i = path[0]
+    if len(path) == 1:
+        return forest[:i] + forest[i + 1:]
+    t = forest[i]
+    if t[0] == 'with':
+        return forest[:i] + [('with', t[1], remove_at(t[2], path[1:]))] + forest[i + 1:]
+    return forest[:i] + [('oth', remove_at(t[1], path[1:]))] + forest[i + 1:]
+
+
+def all_paths(forest, prefix=()):
+    for i, t in enumerate(forest):
+        yield prefix + (i,)
+        if t[0] == 'with':
+            for x in all_paths(t[2], prefix + (i,)):
+                yield x
+        elif t[0] == 'oth':
+            for x in all_paths(t[1], prefix + (i,)):
+                yield x
+
+
+def retarget(case):
+    asg = []
+    for b in case['blocks']:
+        for l in assigned_targets(b['prog']):
+            if l not in asg:
+                asg.append(l)
+    case['targets'] = asg
+    return case
+
+
+def shrink(case, seed, want, budget=400):
+    """greedy: drop subtrees / assignments / default entries / blocks while the same kind of
+    disagreement (want = (kind, leak)) persists"""
+    def same(m):
+        return m is not None and (m['kind'], m.get('leak', False)) == want
+    cur = case
+    changed = True
+    while changed and budget > 0:
+        changed = False
+        cands = []
+        for bi, b in enumerate(cur['blocks']):
+            if len(cur['blocks']) > 1:
+                cands.append(('block', bi))
+            for pth in all_paths(b['prog']):
+                cands.append(('node', bi, pth))
+            for di in range(len(b['defaults'] or [])):
+                cands.append(('dflt', bi, di))
+        for c in cands:
+            budget -= 1
+            if budget <= 0:
+                break
+            new = dict(cur, blocks=[dict(b) for b in cur['blocks']])
+            if c[0] == 'block':
+                new['blocks'] = new['blocks'][:c[1]] + new['blocks'][c[1] + 1:]
+            elif c[0] == 'node':
+                new['blocks'][c[1]]['prog'] = remove_at(new['blocks'][c[1]]['prog'], c[2])
+            else:
+                d = new['blocks'][c[1]]['defaults']
+                new['blocks'][c[1]]['defaults'] = d[:c[2]] + d[c[2] + 1:]
+            retarget(new)
+            try:
+                m = impl_vs_spec(new, seed)
+            except Exception:  # noqa
+                m = None
+            if same(m):
+                cur = new
+                changed = True
+                break
+    return cur
+
+
+def report_shrunk(ctx, case, seed_key, fallback_sig, fallback_what, fallback_rep):
+    """re-find the disagreement stand-alone, shrink it, report the smallest program"""
+    try:
+        seed = repr(seed_key)
+        m = impl_vs_spec(case, seed)
+        if m is None:
+            raise ValueError('not reproduced stand-alone')
+        small = shrink(case, seed, (m['kind'], m.get('leak', False)))
+        m2 = impl_vs_spec(small, seed) or m
+        if m2['kind'] == 'value':
+            sig = 'defaults-leak-across-blocks' if m2.get('leak') else 'value-mismatch:%s' % {
+                'w': 'wire', 'r': 'register', 'm': 'memory'}[m2['target'][0]]
+            what = 'cycle %d target %s: tree interpreter says %r, simulation gives %r' % (
+                m2['cycle'], m2['target'], m2['expected'], m2['got'])
+        elif m2['kind'] == 'accept':
+            sig = fallback_sig
+            what = 'program is %s by PyRTL but the syntactic exclusivity criterion says %s' % (m2['impl'], m2['spec'])
+        else:
+            sig, what = fallback_sig, fallback_what
+        ctx.spec_violation(sig, what + ' (shrunk)', dict(m2, seed=seed, shrunk_from=fallback_rep.get('source')))
+    except Exception:  # noqa
+        ctx.spec_violation(fallback_sig, fallback_what, fallback_rep)
+
+
+def process_case(ctx, case, rng, jobs, seed_key=None):
     """build + simulate the real program, queue the Coq evaluation. Appends to jobs."""
     src = emit_source(case)
-    ok, ns, msg = build_real(case, src)
+    plog = []
+    ok, ns, msg = build_real(case, src, plog)
     accept = []
     for blk in case['blocks']:
         accept.append(py_accepts(blk['prog']))
     spec_ok = all(a for a, _ in accept)
     why = next((w for a, w in accept if not a), 'ok')
     rep = {'source': src, 'case': {k: case[k] for k in ('npred', 'W', 'A', 'origin')}}
-    job = {'case': case, 'src': src, 'ok': ok, 'spec_ok': spec_ok, 'why': why, 'rep': rep}
+    job = {'case': case, 'src': src, 'ok': ok, 'spec_ok': spec_ok, 'why': why, 'rep': rep, 'plog': plog}
     if not ok and ns != 'PyrtlError':
         ctx.spec_violation('foreign-exception:%s' % ns,
                            'program raised %s instead of PyrtlError / success' % ns, dict(rep, error=msg))
@@ -744,9 +908,11 @@ def process_case(ctx, case, rng, jobs):
             ctx.spec_violation('state-leak-after:rejected-program',
                                'conditional module state not reset after PyrtlError', dict(rep, state=repr(module_state())))
     if ok != spec_ok:
-        ctx.spec_violation('accept-mismatch:%s:%s' % ('accepted' if ok else 'rejected', why),
-                           'program is %s by PyRTL but the syntactic exclusivity criterion says %s' % (
-                               'accepted' if ok else 'rejected (%s)' % msg, why), rep)
+        pyrtl.reset_working_block()
+        report_shrunk(ctx, case, seed_key, 'accept-mismatch:%s:%s' % ('accepted' if ok else 'rejected', why),
+                      'program is %s by PyRTL but the syntactic exclusivity criterion says %s' % (
+                          'accepted' if ok else 'rejected (%s)' % msg, why), rep)
+        ok2, ns, msg = build_real(case, src)   # rebuild: the shrinker reset the working block
     steps = []
     job.update(steps=[], rows=[], init_regs={}, init_mems={})
     if ok and case['targets']:
@@ -776,7 +942,7 @@ def process_case(ctx, case, rng, jobs):
                             a, b = norm_mem(a), norm_mem(b)
                         if a != b:
                             sig = classify(job, l)
-                            ctx.spec_violation(sig, 'cycle %d target %s: tree interpreter says %r, simulation gives %r' % (
+                            job['pending_report'] = (sig, 'cycle %d target %s: tree interpreter says %r, simulation gives %r' % (
                                 k, wname(l), sr[l], ir[l]),
                                 dict(rep, cycle=k, target=wname(l), expected=sr[l], got=ir[l],
                                      predicates=steps[k][0], leaves=steps[k][1],
@@ -802,10 +968,15 @@ def process_case(ctx, case, rng, jobs):
                     rv[l[1]] = job['rows'][k][l]
             csteps.append((rho, eff(case, raw), rv))
     job['csteps'] = csteps
-    job['exprs'] = ['all_case %s %s %s' % (coq_forest(b['prog']), coq_defaults(b['defaults']), coq_steps(csteps))
+    job['exprs'] = ['all_case4 %s %s %s' % (coq_forest(b['prog']), coq_defaults(b['defaults']), coq_steps(csteps))
                     for b in case['blocks']]
     jobs.append(job)
     pyrtl.reset_working_block()
+    if 'pending_report' in job:
+        if len(ctx.spec_fail) < 3:
+            report_shrunk(ctx, case, seed_key, *job['pending_report'])
+        else:
+            ctx.spec_violation(*job['pending_report'])
 
 
 def classify(job, l):
@@ -832,7 +1003,17 @@ def check_job(ctx, job, results):
     any_model_none = False
     nontrivial = not job['ok'] and job['why'] == 'conflict'
     for blk, res in zip(case['blocks'], results):
-        model, spec, struct = res
+        model, spec, struct, clits = res
+        if len(case['blocks']) == 1:
+            want = [('%s%d' % ('wrm'[c[0]], c[1]), sorted(('p%d' % p, bool(b)) for p, b in ls))
+                    for c, ls in clits]
+            want = want[:expected_log_len(blk['prog'])]
+            got = [(n, [tuple(x) for x in ls]) for n, ls in job['plog']]
+            okp = got == [(n, [tuple(x) for x in sorted(set(ls))]) for n, ls in want]
+            ctx.count('pred_set_tie', 'identical' if okp else 'DIFFERENT')
+            if not okp:
+                ctx.model_mismatch('pred_sets seen by _check_and_add_pred_set differ from the model / spec path conditions',
+                                   dict(rep, impl=got, model=want))
         spec_acc, spec_rows = spec[0], spec[1]
         pa = py_accepts(blk['prog'])[0]
         if bool(spec_acc) != pa:
@@ -970,7 +1151,7 @@ def gen_cases(ctx):
         c['origin'] = 'enum-sample%d' % nbig
         yield c
     # (2) random
-    nrand = 500 if quick else 8000
+    nrand = 400 if quick else 8000
     for i in range(nrand):
         c = random_case(ctx.sub_rng('random', i), ctx.tier)
         yield c
@@ -988,7 +1169,7 @@ def run(ctx):
     for case in gen_cases(ctx):
         if prng.random() < 0.08:
             run_poison(ctx, prng.randrange(len(POISON)))
-        process_case(ctx, case, ctx.sub_rng('stim', n), jobs)
+        process_case(ctx, case, ctx.sub_rng('stim', n), jobs, seed_key=(ctx.seed, 'shrink', n))
         n += 1
     for k in range(len(POISON)):
         run_poison(ctx, k)
@@ -1006,26 +1187,44 @@ def run(ctx):
 
 
 def replay(ctx, data):
-    """re-run the program stored in a replay file and print what happens"""
+    """re-run ONE stored program: rebuild it from its source text, re-apply the stored inputs and
+    compare with the stored expectation (which came from the tree interpreter)."""
     rep = data.get('replay', data)
+    sig = data.get('signature', 'replay')
     src = rep.get('source')
     print(src)
     ns = {}
+    outcome = 'accepted'
     try:
         exec(compile(src, '<replay>', 'exec'), ns)
-        print('accepted')
     except pyrtl.PyrtlError as e:
-        print('PyrtlError:', e)
-    if 'inputs' in rep:
+        outcome = 'rejected: %s' % e
+    except Exception as e:  # noqa
+        outcome = 'raised %s' % type(e).__name__
+    print(outcome)
+    ctx.case(('replay', src), nontrivial=True, sample={'source': src, 'outcome': outcome})
+    if rep.get('kind') == 'accept' or sig.startswith('accept-mismatch'):
+        expect_ok = rep.get('spec', 'ok') == 'ok' if 'spec' in rep else not sig.startswith('accept-mismatch:accepted')
+        if (outcome == 'accepted') != expect_ok:
+            ctx.spec_violation(sig, 'replay: program is %s, the syntactic criterion says %s' % (
+                outcome, 'accept' if expect_ok else 'reject'), rep)
+    elif 'inputs' in rep and outcome == 'accepted':
         sim = pyrtl.Simulation(register_value_map={ns[k]: v for k, v in rep.get('init_regs', {}).items()},
                                memory_value_map={ns[k]: {int(a): v for a, v in c.items()}
                                                  for k, c in rep.get('init_mems', {}).items()})
-        for s in rep['inputs']:
-            ins = {'p%d' % i: b for i, b in enumerate(s['rho'])}
-            for w in pyrtl.working_block().wirevector_subset(pyrtl.Input):
-                if w.name.startswith('x'):
-                    ins[w.name] = s['x'][int(w.name[1:])]
+        names = {w.name for w in pyrtl.working_block().wirevector_subset(pyrtl.Input)}
+        for st in rep['inputs']:
+            ins = {'p%d' % i: b for i, b in enumerate(st['rho']) if 'p%d' % i in names}
+            for i, v in enumerate(st['x']):
+                if 'x%d' % i in names:
+                    ins['x%d' % i] = v
             sim.step(ins)
-        print('cycle', rep.get('cycle'), 'target', rep.get('target'), 'expected', rep.get('expected'),
-              'got', sim.inspect(rep['target']) if not rep['target'].startswith('m') else sim.inspect_mem(ns[rep['target']]))
-    run(ctx)
+        t = rep['target']
+        got = {int(a): v for a, v in sim.inspect_mem(ns[t]).items() if v} if t.startswith('m') else sim.inspect(t)
+        exp = rep['expected']
+        if isinstance(exp, dict):
+            exp = {int(a): v for a, v in exp.items() if v}
+        print('cycle', rep.get('cycle'), 'target', t, 'expected', exp, 'got', got)
+        if got != exp:
+            ctx.spec_violation(sig, 'replay: cycle %s target %s: expected %r, got %r' % (rep.get('cycle'), t, exp, got), rep)
+    pyrtl.reset_working_block()
